@@ -47,6 +47,7 @@ def sources(spec):
     elif spec["kind"] == "scale":
         # ordinary one-statement-per-line sources with one dimension past 2^8: variables, definitions, parameters, labels,
         # nesting, call depth, identifier length, files, include depth
+        out += programs.no_variable_sources(r)
         for files, main, kind in programs.scale_sources(r, small=spec["chunk"] == 0):
             if "macro" in kind or "one-line" in kind or kind.endswith("-4000") or kind.endswith("-70000") or kind.endswith("-1000") \
                     or (kind.endswith("-1100") and any(w in kind for w in ("locals", "parameters", "variables"))):
